@@ -318,6 +318,7 @@ impl AnySolver {
     ) -> (Caught<Option<Solution<ChalkIr>>>, u64) {
         chalk_solve::verif_hooks::reset(Some(budget));
         let s = self.as_dyn();
+        trace_case(|| format!("solver call on {:?}", goal));
         let r = guarded(|| s.solve(db, goal));
         let t = chalk_solve::verif_hooks::ticks();
         chalk_solve::verif_hooks::reset(None);
@@ -332,6 +333,7 @@ impl AnySolver {
     ) -> (Caught<Option<Solution<ChalkIr>>>, u64) {
         chalk_solve::verif_hooks::reset(Some(DEFAULT_BUDGET));
         let s = self.as_dyn();
+        trace_case(|| format!("solver call on {:?}", goal));
         let r = guarded(|| s.solve_limited(db, goal, should_continue));
         let t = chalk_solve::verif_hooks::ticks();
         chalk_solve::verif_hooks::reset(None);
@@ -346,6 +348,7 @@ impl AnySolver {
     ) -> (Caught<bool>, u64) {
         chalk_solve::verif_hooks::reset(Some(DEFAULT_BUDGET));
         let s = self.as_dyn();
+        trace_case(|| format!("solver call on {:?}", goal));
         let r = guarded(|| s.solve_multiple(db, goal, f));
         let t = chalk_solve::verif_hooks::ticks();
         chalk_solve::verif_hooks::reset(None);
@@ -700,7 +703,44 @@ use std::time::Instant;
 static INFLIGHT: Mutex<Option<HashMap<std::thread::ThreadId, (Instant, String)>>> = Mutex::new(None);
 static WATCHDOG: Once = Once::new();
 
+// ---------------------------------------------------------------------------
+// case tracing: when VERIF_TRACE_FILE is set every call into chalk first appends
+// a line describing the case (unbuffered), so that after an abort (stack
+// overflow, double free, ...) the last line names the input that killed the
+// process. `./vcheck` re-runs a crashed check this way, single-threaded.
+
+static TRACE: std::sync::OnceLock<Option<Mutex<std::fs::File>>> = std::sync::OnceLock::new();
+
+pub fn trace_enabled() -> bool {
+    TRACE
+        .get_or_init(|| {
+            std::env::var("VERIF_TRACE_FILE")
+                .ok()
+                .and_then(|p| std::fs::OpenOptions::new().create(true).append(true).open(p).ok())
+                .map(Mutex::new)
+        })
+        .is_some()
+}
+
+pub fn trace_case(desc: impl FnOnce() -> String) {
+    if trace_enabled() {
+        if let Some(Some(f)) = TRACE.get() {
+            use std::io::Write;
+            let line = desc().replace('\n', " ");
+            let _ = writeln!(f.lock().unwrap(), "{}", line);
+        }
+    }
+}
+
 pub fn inflight_begin(desc: impl FnOnce() -> String) {
+    if trace_enabled() {
+        let d = desc();
+        trace_case(|| d.clone());
+        let mut g = INFLIGHT.lock().unwrap();
+        g.get_or_insert_with(HashMap::new)
+            .insert(std::thread::current().id(), (Instant::now(), d));
+        return;
+    }
     let mut g = INFLIGHT.lock().unwrap();
     g.get_or_insert_with(HashMap::new)
         .insert(std::thread::current().id(), (Instant::now(), desc()));
